@@ -1,5 +1,6 @@
 import GqlModel.Format.Model
 import GqlProofs.Format.QuoteLex
+import GqlProofs.Format.Writer
 /-
   Property C12 — format ∘ parse round trip for executable documents.
 
@@ -120,6 +121,39 @@ theorem C12_quote_illformed_counterexample :
   rw [← h1.1] at h2
   simp at h2
 
+/-- What the UNCHANGED tree does achieve (`renderValue` quotes with `quoteString` = `strconv.Quote`):
+    a string value made of printable ASCII and the control characters BS, TAB, LF, FF, CR is
+    written by `Value.String()` so that the lexer model reads it back byte for byte. -/
+theorem C12_quote_roundtrip_partial (bs : Bytes) (hb : ∀ b ∈ bs, PlainByte b) (p : Pos) (rest : Bytes) (c : Cur)
+    (hblk : bs ≠ [] ∨ rest.head? ≠ some 34) :
+    ∃ t c', readToken (renderValue (.mk .string bs .nil p) ++ rest) c = .tok t rest c' ∧
+      t.kind = .string ∧ t.value = bs := by
+  have hs : ∀ r ∈ bs, IsScalar r := by
+    intro r hr; have := hb r hr; unfold PlainByte at this; unfold IsScalar; omega
+  have ha : utf8Encode bs = bs := utf8Encode_ascii bs (by
+    intro r hr; have := hb r hr; unfold PlainByte at this; omega)
+  have h := C12_quote_is_string_token bs hs rest c hblk
+  rw [ha] at h
+  simpa [renderValue, quoteString, goQuote_plain bs hb] using h
+
+/-- Boundary lemma of the pad state machine, two words: `WriteWord a` then `WriteWord b` puts
+    exactly one space between the (trimmed) words, in every state and configuration. -/
+theorem C12_words_separated (cfg : Cfg) (a b : Bytes) (w : W) :
+    (writeWord cfg b (writeWord cfg a w)).text = w.text ++ lead cfg w ++ trimSpace a ++ [32] ++ trimSpace b :=
+  writeWord_writeWord cfg a b w
+
+/-- Boundary lemma, general form: in a reachable writer state, what `WriteWord` writes is glued to
+    the previous output only when the pad flag is off in the middle of a line (after `WriteString`
+    or an explicit `NoPadding`); otherwise one space, or a newline and the indentation, precede. -/
+theorem C12_write_boundary (cfg : Cfg) (x : Bytes) (w : W) (hinv : w.Inv) :
+    (w.lineHead = false ∧ w.padNext = false ∧ (writeWord cfg x w).text = w.text ++ trimSpace x) ∨
+    (w.lineHead = false ∧ w.padNext = true ∧ (writeWord cfg x w).text = w.text ++ [32] ++ trimSpace x) ∨
+    (∃ pre, w.text = pre ++ [10] ∧
+      (writeWord cfg x w).text = pre ++ [10] ++ repeatBytes cfg.indent w.indentSize ++ trimSpace x) :=
+  writeWord_boundary cfg x w hinv
+
 /-- non-vacuity: the hypotheses of the round-trip theorems are satisfiable with interesting input
     (a quote, a backslash, BEL, a non-BMP rune). -/
 example : ∀ r ∈ [34, 92, 7, 0x1F600], IsScalar r := by decide
+example : ∀ b ∈ [104, 34, 105, 92, 10, 9], PlainByte b := by decide
+example : W.Inv {} := inv_init
